@@ -156,7 +156,11 @@ def sensitivity(argv):
                     meta.get('property') or os.path.basename(d)[:3]]
                 res = []
                 for prop in targets:
-                    rc, dg, out = run_check(prop, 0, 16, 0, repo)
+                    # (a few changes are only within reach of the thorough
+                    # tier: meta.json says which slice of it)
+                    rc, dg, out = run_check(
+                        prop, meta.get('detect_runs', 0), 16, 0, repo,
+                        tier=meta.get('detect_tier', 'quick'))
                     res.append((prop, rc))
                 ok = any(rc == 1 for _, rc in res)
                 print('%-10s seeded: %s %s' % (
